@@ -18,7 +18,8 @@ run_one() { # <diff> <ID> <expected exit> <name>
 for d in seeded/*/; do
   id=$(sed -n 's/.*"regress_with": *"\([^"]*\)".*/\1/p' "$d/meta.json" | head -1)
   [ -n "$id" ] || id=$(sed -n 's/.*"breaks_property": *"\([^"]*\)".*/\1/p' "$d/meta.json" | head -1)
-  [ -n "$id" ] && run_one "$PWD/$d/patch.diff" "$id" 1 "$(basename $d)"
+  exp=$(sed -n 's/.*"regress_expect": *\([0-9]*\).*/\1/p' "$d/meta.json" | head -1)
+  [ -n "$id" ] && run_one "$PWD/$d/patch.diff" "$id" "${exp:-1}" "$(basename $d)"
 done
 for f in sensitivity/*.diff; do
   name=$(basename "$f" .diff)
